@@ -189,11 +189,11 @@ Want(L, I) ==
 \* dev: why and where the transcription differs from the meaning; the fields hold the answers one
 \* database would give, for exactly the queries that are answered differently
 NoDev == [cause |-> "none", lb |-> <<>>, cur |-> <<>>, ser |-> <<>>, gt |-> <<>>, revs |-> <<>>, last |-> <<>>]
-Dev(L, I) ==
+\* (D: the transcription's table for L, I - passed in so that it is computed once per state)
+DevFrom(L, I, D) ==
   IF Len(L) = 1 THEN NoDev
   ELSE IF ~SeamOrdered(L) \/ ~LtidOrdered(I) THEN [NoDev EXCEPT !.cause = "tid-order-across-layers"]
   ELSE LET W == Want(L, I)
-           D == DObs(L, I)
            M == Cat(L)
            \* "no such object at that time" is POSKeyError or None depending on which layer says it; both mean
            \* that there is no revision (a connection treats them alike): only revisions are compared
@@ -210,9 +210,10 @@ Dev(L, I) ==
                 ser |-> [q \in bSer |-> W.ser[q[1]][q[2]]], gt |-> [o \in bGt |-> W.gt[o]],
                 revs |-> [o \in bRevs |-> W.revs[o]], last |-> IF D.last = W.last THEN <<>> ELSE <<W.last>>]
 
+Dev(L, I) == DevFrom(L, I, DObs(L, I))
 NoObs == <<>>
 ObsOf(L, I) == IF PrintObs THEN DObs(L, I) ELSE NoObs
-DevOf(L, I) == IF PrintObs THEN Dev(L, I) ELSE NoDev
+DevOf(L, I, D) == IF PrintObs THEN DevFrom(L, I, D) ELSE NoDev
 
 (* ================================ actions =============================== *)
 Init == /\ layers = << <<>> >> /\ inst = <<FreshInst>>
@@ -380,7 +381,7 @@ Finish(c) ==
   /\ inst' = [inst EXCEPT ![Top].ltid = txn.tid, ![Top].issued = @ \ txn.stored]
   /\ txn' = NoTxn
   /\ res' = [call |-> "finish", out |-> "ok", tid |-> txn.tid]
-  /\ obs' = ObsOf(layers', inst') /\ dev' = DevOf(layers', inst')
+  /\ obs' = ObsOf(layers', inst') /\ dev' = DevOf(layers', inst', obs')
   /\ UNCHANGED <<clock, begun, noids, npacks>>
 
 Abort(c) ==
@@ -432,7 +433,7 @@ Pack(sec, g) ==
         /\ inst' = IF (mark \/ r.out \in {"ok", "nothing-freed", "redundant"}) /\ T > inst[Top].lastPack
                    THEN [inst EXCEPT ![Top].lastPack = T] ELSE inst
         /\ res' = [call |-> "pack", out |-> r.out, T |-> T, gc |-> g]
-  /\ obs' = ObsOf(layers', inst') /\ dev' = DevOf(layers', inst')
+  /\ obs' = ObsOf(layers', inst') /\ dev' = DevOf(layers', inst', obs')
   /\ UNCHANGED <<txn, clock, begun, noids>>
 
 \* DemoStorage(base = top, changes = new storage) / top.push(changes = new storage)
@@ -442,7 +443,7 @@ Push ==
   /\ inst' = Append(inst, FreshInst)
   /\ begun' = IF IsDemo THEN begun ELSE 0
   /\ res' = OK("push")
-  /\ obs' = ObsOf(layers', inst') /\ dev' = DevOf(layers', inst')
+  /\ obs' = ObsOf(layers', inst') /\ dev' = DevOf(layers', inst', obs')
   /\ UNCHANGED <<txn, clock, noids, npacks>>
 
 \* pop(): closes the changes and returns the base (only from a pushed demo: the result is a demo again)
@@ -451,7 +452,7 @@ Pop ==
   /\ layers' = SubSeq(layers, 1, Top - 1)
   /\ inst' = SubSeq(inst, 1, Top - 1)
   /\ res' = OK("pop")
-  /\ obs' = ObsOf(layers', inst') /\ dev' = DevOf(layers', inst')
+  /\ obs' = ObsOf(layers', inst') /\ dev' = DevOf(layers', inst', obs')
   /\ UNCHANGED <<txn, clock, begun, noids, npacks>>
 
 SerialRange == {0} \cup {c * K + b : c \in 1..(MaxClock + 1), b \in 0..(MaxBase + MaxTxn + 1)}
@@ -470,21 +471,40 @@ Next ==
   \/ Push
   \/ Pop
 
-\* directed sub-relation for simulation: no idle aborts, the base is built without detours,
-\* new_oid / pack / push / pop between transactions
+\* for exhaustive checking: calls with a foreign transaction change nothing but `res` (six self-loops per
+\* state under the VIEW); they are left to the scenarios and to simulation
+NextMC ==
+  \/ \E c \in Client, m \in Metas, clk \in 1..MaxClock : Begin(c, m, clk)
+  \/ \E c \in Client, o \in Oids, s \in SerialRange, d \in Datums : Store(c, o, s, d)
+  \/ \E c \in Client, o \in Oids, s \in SerialRange : CheckCurrent(c, o, s)
+  \/ \E c \in Client, t \in SerialRange : Undo(c, t)
+  \/ \E c \in Client : Vote(c)
+  \/ \E c \in Client : Finish(c)
+  \/ \E c \in Client : Abort(c)
+  \/ \E n0 \in Oids : NewOid(n0)
+  \/ \E sec \in 0..(MaxClock + 1), g \in GcArgs : Pack(sec, g)
+  \/ Push
+  \/ Pop
+
+\* directed sub-relation for simulation (a uniform walk wastes its bounded number of transactions on refused
+\* calls): stale serials mostly where a resolver exists, undo and readCurrent at fixed places of a transaction,
+\* calls with a foreign transaction between vote and finish, new_oid / pack / push / pop between transactions
 AbortFailed(c) == InTxn(c) /\ txn.phase = "failed" /\ Abort(c)
-AbortVoted(c) == IsDemo /\ InTxn(c) /\ txn.phase = "voted" /\ Len(txn.staged) >= 1 /\ Abort(c)
-CheckCurrentQ(c, o, s) == IsDemo /\ CheckCurrent(c, o, s)
-WrongQ(call) == (IF txn = NoTxn THEN FALSE ELSE txn.phase = "begun" /\ Len(txn.staged) = 1) /\ Wrong(call)
+AbortVoted(c) == IsDemo /\ InTxn(c) /\ txn.phase = "voted" /\ Len(txn.staged) >= 2 /\ Abort(c)
+CurSerial(o) == LET l == QLoad(layers, Top, o) IN IF l.k = "rev" THEN l.serial ELSE 0
+StoreQ(c, o, s, d) == Active(c) /\ (s = CurSerial(o) \/ (IsDemo /\ (Cls[o] = "merge" \/ txn.staged = <<>>))) /\ Store(c, o, s, d)
+CheckCurrentQ(c, o, s) == IsDemo /\ Active(c) /\ Len(txn.staged) = 1 /\ CheckCurrent(c, o, s)
+UndoQ(c, t) == Active(c) /\ txn.staged = <<>> /\ Undo(c, t)
+WrongQ(call) == (IF txn = NoTxn THEN FALSE ELSE txn.phase = "voted" /\ Len(txn.staged) = 1) /\ res.call = "vote" /\ Wrong(call)
 NewOidQ(n0) == (IF txn = NoTxn THEN TRUE ELSE txn.staged = <<>>) /\ NewOid(n0)
 PackQ(sec, g) == Len(TopH) >= 2 /\ res.call \in {"finish", "pack"} /\ Pack(sec, g)
 PushQ == (IsDemo => res.call \in {"finish", "pop"}) /\ Push
 PopQ == res.call \in {"finish", "push", "new_oid"} /\ Pop
 NextSim ==
   \/ \E c \in Client, m \in Metas, clk \in 1..MaxClock : Begin(c, m, clk)
-  \/ \E c \in Client, o \in Oids, s \in SerialRange, d \in Datums : Store(c, o, s, d)
+  \/ \E c \in Client, o \in Oids, s \in SerialRange, d \in Datums : StoreQ(c, o, s, d)
   \/ \E c \in Client, o \in Oids, s \in SerialRange : CheckCurrentQ(c, o, s)
-  \/ \E c \in Client, t \in SerialRange : Undo(c, t)
+  \/ \E c \in Client, t \in SerialRange : UndoQ(c, t)
   \/ \E c \in Client : Vote(c)
   \/ \E c \in Client : Finish(c)
   \/ \E c \in Client : AbortFailed(c)
@@ -506,6 +526,7 @@ TypeOK == /\ (IF txn = NoTxn THEN TRUE ELSE txn.phase \in {"begun", "voted", "fa
 \* C16 "reads as changes-over-base": every answer of the demo storage is the answer of one database
 \* holding base \o changes, with the intervals joined at the seam
 DemoObs == Dev(layers, inst).cause = "none"
+NoUndoDeviation == Dev(layers, inst).cause # "undo-uncreates-lower-object"
 \* with the code as it is: every difference is one of the named deviations
 Explained == Dev(layers, inst).cause # "unexplained"
 \* tids strictly increase across the seam (C04 for the stack; F10)
@@ -527,7 +548,8 @@ ConflictAcrossLayers ==
     LET M == Cat(layers) IN
     \A i \in 1..Len(M) : \A j \in 1..Len(M[i].recs) :
       LET r == M[i].recs[j] IN
-        (r.op = "data" /\ r.base >= 0) =>
+        \* (a pack may have removed the revision the writer started from)
+        (r.op = "data" /\ r.base >= 0 /\ \A n \in 1..Len(inst) : r.base > inst[n].lastPack) =>
            LET p == PrevPos(M, i, r.oid) IN
            IF ~r.res THEN r.base = (IF p = 0 THEN 0 ELSE M[p].tid)
            ELSE /\ p # 0 /\ r.d.v[1] = "M"
